@@ -131,7 +131,7 @@ class ConvexMonitor(solvex.Monitor):
             ex.tags.add("eval_on_set_boundary")
 
     def on_end(self, ex):
-        if ex.outcome == "raised":
+        if ex.outcome == "raised" and not mon.raise_is_allowed(ex):
             ex.violate("returns", "solve raised %s: %s" % (type(ex.exc).__name__, ex.exc))
         elif ex.outcome == "returned" and ex.soln.flag == mon.INPUT_ERROR:
             ex.violate("returns", "input error for a valid configuration: %s" % ex.soln.msg)
@@ -194,6 +194,11 @@ def _configs(tier, salts):
                                 if tier == "thorough" and salt == 0 and n == 2 and len(sub) == 2 and sname in ("interior", "boundary_a") and rmode == "none":
                                     depth = 1
                                 out.append((cfg, {"depth": depth, "letters": ["x0.3", "x3"]}))
+        # projection modes of the broad option bank (user Dykstra parameters, restarts, regulariser + projections)
+        if salt == 0 or tier == "thorough":
+            for name, cfg in cfgs.broad_cfgs(salt=salt, require=("sets",), budgets=(12, 35), reg_budgets=(8,)):
+                cfg = dict(cfg, record_dykstra=True, tag_start="broad", tag_restart="broad")
+                out.append((cfg, {"depth": 0}))
     return out
 
 
